@@ -220,8 +220,61 @@ def build(chk):
                         from_row("bdf2-recurrence[%d]" % r, 3 * Q2[r] - 4 * Q1[r] + Q0[r], 2 * dt * AQ2[r], D2[r], 2 * dt, rp)
                     prove("time-after-two-steps", T.treal(S["field"].attrs["time"]) == t0 + 2 * dt,
                           replay=dict(rp, args=dict(rp["args"], clause="time")))
+                    # the step re-establishes the history invariant for the next one
+                    last2 = S["solver"].attrs.get("_lastresidual")
+                    for q in range(neq):
+                        for cell in range(n):
+                            prove("history-after-the-bdf2-step[%d,%d]" % (q, cell),
+                                  T.treal(last2[q].at(cell)) * dt == Q2[cell * neq + q] - Q1[cell * neq + q],
+                                  replay=dict(rp, args=dict(rp["args"], clause="history")))
                 canary("canary", Q1[0] == Q0[0] + 1)
             chk.run("size(n=%d,neq=%d)/%s" % (n, neq, nm), one)
+
+        # inductive step of gear: from ANY state with a history satisfying the invariant (last = (Q_n - Q_{n-1})/dt for an
+        # arbitrary previous state), one step satisfies the BDF2 recurrence and re-establishes the invariant
+        rpg = {"fn": "implicit_clause", "args": {"integrator": "gear", "n": n, "neq": neq, "clause": "history"}}
+
+        def induct(n=n, neq=neq, rp=rpg):
+            cls = mod.env.vars["gear"]
+            rhs = LinearRHS(neq, n)
+            S = make_setup(chk, cls, neq=neq, n=n, rhs=rhs)
+            Qs, Ls, hist = [], [], []
+            for q in range(neq):
+                arr, xs = vec("Q%d" % q, n)
+                Qs.append(xs)
+                S["field"].attrs["data"][q] = arr
+                larr, ls = vec("L%d" % q, n)
+                Ls.append(ls)
+                hist.append(larr)
+            S["solver"].attrs["_lastresidual"] = hist
+            dt = z3.Real("dt")
+            assume(dt > 0)
+            for q in range(neq):
+                assume(sum(zabs(x) for x in Qs[q]) > 0)
+            Q1 = [Qs[c % neq][c // neq] for c in range(rhs.dim)]
+            L = [Ls[c % neq][c // neq] for c in range(rhs.dim)]
+            Q0 = [a - dt * b for a, b in zip(Q1, L)]         # the previous state the history stands for
+            t0 = S["t0"]
+            jc = JacobianContract(rhs)
+            it.contracts[QN_JAC] = jc
+            it.active_contracts.add(QN_JAC)
+            try:
+                it.call(it.getattr(S["solver"], "step"), [S["field"], dt], {})
+            finally:
+                it.active_contracts.discard(QN_JAC)
+            D2 = linsolve_facts()
+            Q2 = [T.treal(S["field"].attrs["data"][c % neq].at(c // neq)) for c in range(rhs.dim)]
+            AQ2 = rhs.apply_list(Q2)
+            for r in range(rhs.dim):
+                from_row("bdf2-recurrence[%d]" % r, 3 * Q2[r] - 4 * Q1[r] + Q0[r], 2 * dt * AQ2[r], D2[r], 2 * dt, rp)
+            last2 = S["solver"].attrs.get("_lastresidual")
+            for q in range(neq):
+                for cell in range(n):
+                    prove("history-invariant-preserved[%d,%d]" % (q, cell),
+                          T.treal(last2[q].at(cell)) * dt == Q2[cell * neq + q] - Q1[cell * neq + q], replay=rp)
+            prove("time-advances-by-dt", T.treal(S["field"].attrs["time"]) == t0 + dt, replay=dict(rp, args=dict(rp["args"], clause="time")))
+            canary("canary", Q2[0] == Q1[0] + 1)
+        chk.run("size(n=%d,neq=%d)/gear/inductive-step" % (n, neq), induct)
 
     # ---- finite-difference perturbation (all sizes: symbolic ncell) ---------------------------------
     def fdstep():
